@@ -63,7 +63,22 @@ func bytesStr(m *fold.Machine, v fold.Val) string {
 func addCompareAtoms(m *fold.Machine) {
 	atom := func(op string) fold.Model {
 		return func(cl *fold.Call) fold.Val {
-			return fold.Bool(cl.M.Atom(op + "(" + bytesStr(cl.M, cl.Args[0]) + "," + bytesStr(cl.M, cl.Args[1]) + ")"))
+			a, b := bytesStr(cl.M, cl.Args[0]), bytesStr(cl.M, cl.Args[1])
+			if strings.HasPrefix(a, `"`) && strings.HasPrefix(b, `"`) {
+				// both constant: the comparison is decided
+				as, bs := strings.Trim(a, `"`), strings.Trim(b, `"`)
+				switch op {
+				case "Equal":
+					return fold.Bool(as == bs)
+				case "EqualFold":
+					return fold.Bool(strings.EqualFold(as, bs))
+				case "HasToken":
+					if as == "" {
+						return fold.Bool(false)
+					}
+				}
+			}
+			return fold.Bool(cl.M.Atom(op + "(" + a + "," + b + ")"))
 		}
 	}
 	m.Models["bytes.Equal"] = atom("Equal")
